@@ -15,7 +15,11 @@ func init() {
 	register("C14", "other", []string{
 		"decides: the goroutine that runs Task.Fn is launched only on the error-list-empty edge; the cancellation arm appends to that list on its first observation; the completion arm appends an error wrapping (%w) the task's error unless it is ErrorSkipParents, in which case every (transitive) parent is marked skip; the gated branch reports ErrorTaskSkipped, the skip branch reports nil; Run returns the error list iff it is non-empty",
 		"'in-flight tasks are allowed to finish' is a liveness clause and is not decided",
-	}, rC14Gate, rC14Completion, rC14Branches, rC14Result, func(w *World, r *Report) { subRule(w, r, rC16Edges, "R14.5", "skip propagation walks Parents while readiness walks Children: both lists are recorded symmetrically (same obligations as C16 R16.6)", 2) }, func(w *World, r *Report) { subRule(w, r, rC13Completion, "R14.6", "the error that reaches the scheduler is the task's last result (same obligations as C13 R13.5)", 4) }, func(w *World, r *Report) { subRule(w, r, rC13RetryLoop, "R14.7", "same obligations as C13 R13.4", 3) })
+	}, rC14Gate, rC14Completion, rC14Branches, rC14Result, func(w *World, r *Report) {
+		subRule(w, r, rC16Edges, "R14.5", "skip propagation walks Parents while readiness walks Children: both lists are recorded symmetrically (same obligations as C16 R16.6)", 2)
+	}, func(w *World, r *Report) {
+		subRule(w, r, rC13Completion, "R14.6", "the error that reaches the scheduler is the task's last result (same obligations as C13 R13.5)", 4)
+	}, func(w *World, r *Report) { subRule(w, r, rC13RetryLoop, "R14.7", "same obligations as C13 R13.4", 3) })
 	register("C15", "other", []string{
 		"decides: the semaphore is made with capacity maxParallel (only set to positive values), acquired before Task.Fn and released only in a deferred function; the per-Task mutex is taken before Fn and released by defer; every use of the output writer is inside a bufferMutex critical section; in serial mode nothing is offered while any vertex is in progress",
 		"the bound itself follows from channel semantics (trusted)",
@@ -23,7 +27,11 @@ func init() {
 	register("C16", "other", []string{
 		"decides: the cycle check dominates the scheduler loop; the vertex table is insert-only (edges keep pointing at live vertices); no completion is lost (C13 R13.5); all-done is declared exactly when every vertex is counted done; every accepted offer launches a goroutine; edges are recorded symmetrically; the depth-first sort has the three-colour shape (cycle ⇒ ErrorGraphHasCycle, post-order append, every vertex visited)",
 		"termination and work conservation as liveness properties are not decided, only these necessary conditions",
-	}, rC16CycleCheck, rC16InsertOnly, func(w *World, r *Report) { subRule(w, r, rC13Completion, "R16.3", "no completion is lost (same obligations as C13 R13.5)", 4) }, rC16AllDone, rC16Launch, rC16Edges, rC16DFS, func(w *World, r *Report) { subRule(w, r, rC15Semaphore, "R16.8", "capacity is returned: one acquire per goroutine, released on exit (same obligations as C15 R15.1)", 5) })
+	}, rC16CycleCheck, rC16InsertOnly, func(w *World, r *Report) {
+		subRule(w, r, rC13Completion, "R16.3", "no completion is lost (same obligations as C13 R13.5)", 4)
+	}, rC16AllDone, rC16Launch, rC16Edges, rC16DFS, func(w *World, r *Report) {
+		subRule(w, r, rC15Semaphore, "R16.8", "capacity is returned: one acquire per goroutine, released on exit (same obligations as C15 R15.1)", 5)
+	})
 }
 
 // subRule re-runs another rule function and files its obligations under a new id.
@@ -167,7 +175,9 @@ func rC14Gate(w *World, r *Report) {
 				}
 			}
 			sawAppend := map[string]bool{}
-			pe := &pathExplorer{stopBlock: func(b *ssa.BasicBlock) bool { return b == g.Block() || b == doneSel.Block() || b.Comment == "for.body" && b.Dominates(doneSel.Block()) },
+			pe := &pathExplorer{stopBlock: func(b *ssa.BasicBlock) bool {
+				return b == g.Block() || b == doneSel.Block() || b.Comment == "for.body" && b.Dominates(doneSel.Block())
+			},
 				onInstr: func(in ssa.Instruction, e boolEnv) {
 					if _, ok := isErrListAppend(in); ok {
 						appended = true
@@ -186,7 +196,9 @@ func rC14Gate(w *World, r *Report) {
 			_ = seen
 			// simpler: with all boolean flags false, no path from the received edge reaches the launch block or the loop head without an append
 			reachedWithout := false
-			pe2 := &pathExplorer{stopBlock: func(b *ssa.BasicBlock) bool { return b == g.Block() || (b.Dominates(doneSel.Block()) && b != recvIf.Block() && blockInCycle(b) && b.Comment == "for.body") },
+			pe2 := &pathExplorer{stopBlock: func(b *ssa.BasicBlock) bool {
+				return b == g.Block() || (b.Dominates(doneSel.Block()) && b != recvIf.Block() && blockInCycle(b) && b.Comment == "for.body")
+			},
 				onArrive: func(_, _ *ssa.BasicBlock, _ int, e boolEnv) { reachedWithout = true }}
 			pe2.onInstr = func(in ssa.Instruction, e boolEnv) {}
 			// emulate "stop at append" by pruning: run explorer but treat blocks containing an append as stop blocks that do not count
@@ -738,8 +750,14 @@ func rC15Buffer(w *World, r *Report) {
 		n++
 		fn := u.Fn
 		ig := buildIG(fn)
-		isLock := func(in ssa.Instruction) bool { c, ok := in.(ssa.CallInstruction); return ok && isMu(c, "(*sync.Mutex).Lock") }
-		isUnlock := func(in ssa.Instruction) bool { c, ok := in.(ssa.CallInstruction); return ok && isMu(c, "(*sync.Mutex).Unlock") }
+		isLock := func(in ssa.Instruction) bool {
+			c, ok := in.(ssa.CallInstruction)
+			return ok && isMu(c, "(*sync.Mutex).Lock")
+		}
+		isUnlock := func(in ssa.Instruction) bool {
+			c, ok := in.(ssa.CallInstruction)
+			return ok && isMu(c, "(*sync.Mutex).Unlock")
+		}
 		// the writer value's uses: the calls that write
 		ld := u.Instr.(ssa.Value)
 		for _, ref := range *ld.Referrers() {
@@ -830,7 +848,9 @@ func rC15Serial(w *World, r *Report) {
 	// (2) with serial assumed, every offer passes the scan's exit edge
 	ig := buildIG(fn)
 	exitStart := ig.edgeStart(scan, 1)
-	isExit := func(in ssa.Instruction) bool { return len(exitStart) > 0 && ig.idx[in] == exitStart[0] && len(in.Block().Preds) >= 1 }
+	isExit := func(in ssa.Instruction) bool {
+		return len(exitStart) > 0 && ig.idx[in] == exitStart[0] && len(in.Block().Preds) >= 1
+	}
 	seen := ig.reachFromE([]int{0}, func(in ssa.Instruction) bool { return in.Block() == scan }, func(term ssa.Instruction, k int) bool {
 		if iff, ok := term.(*ssa.If); ok {
 			for _, f := range condFacts(iff.Cond, k == 0, iff) {
